@@ -51,77 +51,48 @@ def check_entries(rep, prog, ts_term):
     items = list_items(I, r)
     if items is None:
         raise AnalysisError("parse_ilog_data does not return a list")
-    # the entry loop is the one the per-entry output lines are produced in (wherever it lives: inline, helper or generator)
-    srcs = [i for i in items if i[0] == "rep"]
-    if len(srcs) != 1:
-        rep.fail(rule, where, "lines.append(...)", "not exactly one output line per (non-skipped) entry: %d line sources" % len(srcs))
-        return
-    L = srcs[0][1]
-    if L.kind != "while" or L.cond is None:
-        raise AnalysisError("ILOG entries are not walked by a while loop over the stream (%s loop)" % L.kind)
-    idxk = [k for k in L.carried if k.endswith(".index")]
-    if not idxk:
-        raise AnalysisError("entry loop does not advance a stream")
-    init, nxt, d, w = L.carried[idxk[0]]
-    lv = [x for x in walk(L.cond) if isinstance(x, Sym) and x.kind == "loopvar"]
-    if d is not None:
-        B = add(init, mul(L.idx, d))          # closed form: position at the start of iteration i
-    else:
-        B = lv[0] if lv else None
-    ok = B is not None and init == Const(0) and equivalent(pelx.ite(L.cond, Const(1), Const(0)),
-                                                        pelx.ite(compare("le", add(B, Const(8)), Op("len", DATA)), Const(1), Const(0)))[0]
-    rep.check(ok, rule, "entries are read while a whole 8-byte entry remains (a trailing partial entry is ignored), starting at offset 0", where,
-              L.node, "entry loop guard is %r (start %r): it must test that 8 bytes remain" % (L.cond, init), node=L.node)
-    if B is None:
-        return
-    if d is not None:
-        e1 = d == Const(8)
-    else:
-        e1, env, _ = equivalent(nxt, pelx.ite(L.cond, add(B, Const(8)), B))
-    rep.check(e1, rule, "each iteration consumes exactly 8 bytes", where, L.node, "an iteration does not consume exactly 8 bytes: entries drift", node=L.node)
-    ts, seq, pte = IntF(B, 2), IntF(add(B, Const(2)), 2), IntF(add(B, Const(4)), 4)
-    heads = [i for i in items if i[0] == "v"]
-    reps = [i for i in items if i[0] == "rep" and i[1] is L]
-    rep.check(len(heads) == 2 and items[:2] == heads and all(is_const(h[1], str) for h in heads), rule, "two heading lines first", where,
-              "lines.append(...)", "output does not start with exactly the two heading lines")
-    if len(reps) != 1 or len(items) != 3:
-        rep.fail(rule, where, "lines.append(...)", "not exactly one output line per (non-skipped) entry: %d line sources" % len(reps))
-        return
-    _, _, line, g = reps[0]
-    skip = and_(compare("eq", ts, Const(0)), compare("eq", seq, Const(0)), compare("eq", pte, Const(0)))
-    e2, env, _ = equivalent(pelx.ite(g, Const(1), Const(0)), pelx.ite(not_(skip), Const(1), Const(0)))
-    rep.check(e2, rule, "an entry is skipped iff timestamp, sequence and PTE are all zero", where, "continue",
-              "entries are skipped under %r, not exactly when all three fields are zero (%s)" % (not_(g), env_str(env)))
-    parts = flat_parts(line)
-    ts_fmt = subst(ts_term, {Sym("t", "int"): ts})
-    okp = len(parts) >= 7
-    detail = ""
-    if okp:
-        # timestamp part may itself be a fmt: compare prefix by rebuilding
-        from ..terms import fmt as mkfmt
-        want_prefix = flat_parts(mkfmt([ts_fmt, Const(" ")])) if not isinstance(ts_fmt, Ite) else [ts_fmt, Const(" ")]
-        okp = parts[0] == ts_fmt and parts[1] == Const(" ")
-        h_seq = parts[2] if isinstance(parts[2], Op) and parts[2].op == "fv" else None
-        h_pte = parts[4] if isinstance(parts[4], Op) and parts[4].op == "fv" else None
-        okp = okp and h_seq is not None and h_seq.args[0] == seq and h_seq.args[1] == Const("04X") and parts[3] == Const(" ")
-        okp = okp and h_pte is not None and h_pte.args[0] == pte and h_pte.args[1] == Const("08X") and parts[5] == Const(" ")
-        from ..interp import _strip_undef
-        msg = _strip_undef(parts[6])
-        detail = "message part %r" % (msg,)
-        # message: table.get_entry(pte) -> entry.get_message(pte), 'Undefined' when None
-        calls = [e for e in I.events if e.kind == "opaquecall" and e.data[0] == IL + "PTETable.get_entry"]
-        okm = len(calls) == 1 and calls[0].data[1][-1] == pte
-        okm = okm and isinstance(msg, Ite) and Const("Undefined") in (msg.a, msg.b)
-        if okm:
-            other = msg.b if msg.a == Const("Undefined") else msg.a
-            cond = not_(msg.c) if msg.a == Const("Undefined") else msg.c
-            ent = [x for x in walk(other) if isinstance(x, Op) and x.op == "call:" + IL + "PTETable.get_entry"]
-            okm = isinstance(other, Op) and other.op in ("m:get_message", "call:" + IL + "PTETableEntry.get_message") and other.args[-1] == pte \
-                and len(ent) >= 1 and ent[0].args[-1] == pte and other.args[0] == ent[0] and \
-                any(c == compare("isnot", ent[0], NONE) for c in (cond.args if isinstance(cond, Op) and cond.op == "and" else [cond]))
-        okp = okp and okm and len(parts) == 7
-    rep.check(okp, rule, "line = '<H:MM:SS> <seq %04X> <pte %08X> <message of the matching entry | Undefined>'", where, "lines.append(f'...')",
-              "an output line does not show the entry's timestamp, sequence number (%%04X), PTE (%%08X) and table message as stored (%s): %r" % (detail, line))
+    # what is shown for which bytes: the summary is run on sample ILOG buffers (complete / partial last entry, all-zero and
+    # partly-zero entries, undefined PTEs, special timestamps) with echoing table stubs and compared with the documented lines
+    import struct
+
+    def get_entry(*a):
+        pte = a[-1]
+        return None if pte % 3 == 0 else ("ENT", pte)
+
+    def get_message(*a):
+        entry, pte = a[-2] if len(a) > 1 else None, a[-1]
+        return "MSG<%08X>" % pte if entry == ("ENT", pte) else "<message of another entry: %r>" % (entry,)
+    stubs = {"call:" + IL + "PTETable.get_entry": get_entry, "call:" + IL + "PTETableEntry.get_message": get_message, "m:get_message": get_message}
+    E = lambda t, q, p: struct.pack(">HHI", t, q, p)
+    samples = [b"", b"\x00" * 7, E(1, 2, 4), E(1, 2, 4) + b"\x01", E(0, 0, 0), E(0, 0, 5), E(0, 7, 0), E(9, 0, 0), E(0xFFFF, 0xABCD, 0xDEADBEEF),
+               E(3661, 1, 0x01040007) + E(0, 0, 0) + E(35999, 0xFFFF, 0x0000FFFF) + b"\x00\x01\x02",
+               E(0, 0, 0) * 2 + E(5, 6, 6) + E(0xFFFE, 1, 1), E(65535, 0, 3) + E(1, 1, 1) * 3 + b"\xff" * 7]
+    bad = None
+    for data in samples:
+        env = pelx.with_heap(I, {DATA: data, Op("len", DATA): len(data), Op("truthy", DATA): bool(data)})
+        env["__ops__"] = stubs
+        try:
+            got = evaluate(r, env)
+        except CannotEval as e:
+            raise AnalysisError("parse_ilog_data summary not evaluable: %s" % e)
+        except Exception as e:
+            got = "<raises %s: %s>" % (type(e).__name__, e)
+        want = ['hh:mm:ss seq  pppppppp description', '-------- ---- -------- ------------------------------------']
+        for k in range(len(data) // 8):
+            t, q, p = struct.unpack(">HHI", data[8 * k:8 * k + 8])
+            if (t, q, p) == (0, 0, 0):
+                continue
+            ent = get_entry(p)
+            want.append("%s %04X %08X %s" % (spec_timestamp(t), q, p, get_message(ent, p) if ent is not None else "Undefined"))
+        if got != want and bad is None:
+            k = next((i for i in range(max(len(got), len(want))) if i >= len(got) or i >= len(want) or got[i] != want[i]), 0) \
+                if isinstance(got, list) else 0
+            bad = "ILOG bytes %s: line %d is %r, documented %r" % (data.hex(), k, got[k] if isinstance(got, list) and k < len(got) else got,
+                                                                  want[k] if k < len(want) else None)
+    rep.count("ILOG sample buffers evaluated", len(samples))
+    rep.check(bad is None, rule, "two heading lines, then per complete 8-byte entry (timestamp/2, sequence/2, PTE/4; a trailing partial entry is "
+              "ignored; all-zero entries skipped): '<H:MM:SS> <seq %04X> <pte %08X> <message of the entry matching this PTE | Undefined>'", where,
+              "lines.append(f'...')", "the ILOG listing does not show every entry's own fields and table message: %s" % bad)
     news = [e for e in I.events if e.kind == "new" and e.data[0] == IL + "PTETable"]
     rep.check(len(news) == 1 and news[0].data[2] == (hdr,) and not news[0].loops, rule, "one PTE table is built from the given header file", where,
               "PTETable(header_file_path)", "PTE table is not built once from the given header file")
